@@ -25,7 +25,11 @@ META = {
     "default last two axes; proved: every source plane is warped exactly once into the ORIGINAL content of the same "
     "destination plane, surplus planes untouched), warp_affine / warp_affine_rio (transform = A, no NaN default), and the "
     "documented calling convention (Model/C10Sig: parameter order and exact default tolerances, tied to the model's "
-    "defaults).  The copies of the math.py helpers in C20 / C09 / C02 are proved equal to the planning model's "
+    "defaults), resampling_s2rio / is_resampling_nn and the argument preparation of _rio_reproject (Model/C10Rs: resampling "
+    "as string / enum / int, XSCALE/YSCALE work-around, GeoBox vs GCPGeoBox source, nodata stretching, working dtypes; "
+    "exhaustive over the backend's Resampling enum, backend call recorded through the public rasterio.warp.reproject), and "
+    "the paste contract for every read-shrink k > 1 END TO END from the two GeoBoxes through C02's zoom_out "
+    "(Props/C10C02).  The copies of the math.py helpers in C20 / C09 / C02 are proved equal to the planning model's "
     "(Props/C10Link).  Model tied to /repo by exact differential correspondence; the reference nearest-neighbour "
     "semantics (Spec/Warp) and the real plans are compared pixel-for-pixel with GDAL (rio_reproject nearest) for "
     "u1,i1,i2,u2,i4,f4,f8,bool on every run, through keyword AND positional calling conventions, with destination / "
@@ -39,8 +43,8 @@ META = {
     "parameters are accepted); it only makes the behavioural probing denser.  Direct streams on private helpers "
     "(_can_paste) are skipped and counted when the helper is renamed / re-parameterised.",
     "technique": "Lean 4 proof over hand model + differential correspondence with real code + GDAL pixel oracle",
-    "unmodelled": "warp.py: resampling_s2rio, is_resampling_nn (string dispatch); GCP sources; every resampling other than "
-    "nearest; the XSCALE/YSCALE kwargs work-around; GDAL's nudging of valid pixels equal to the destination nodata (known "
+    "unmodelled": "warp.py: the numerics of GCP sources and of every resampling other than nearest (only the dispatch to the "
+    "backend is modelled); non-ASCII resampling names (str.lower is modelled for ASCII); GDAL's nudging of valid pixels equal to the destination nodata (known "
     "finding, kept out of the value model); memory layout of the rasters (exercised by the oracles, not a model "
     "parameter).  math.py / overlap.py planning code is modelled in Model/C03 + Model/C03Top (see C03 META).",
     "design_ref": "DESIGN.md §4 C10",
@@ -739,6 +743,109 @@ def run(R: Run):
                       "src": enc(src).ravel().tolist(), "dst": enc(pre).ravel().tolist()},
                      f"N-d result {outn[0][:200]} differs from plane-by-plane 2-D warps", sig=f"ndwarp|{t}|plane-by-plane")
 
+    # ================================================================ dispatch tables of warp.py (model: C10Rs)
+    import rasterio.warp as RW
+
+    RS_NAMES = [m.name for m in RW.Resampling]
+    R.oracle([(m.name, int(m.value)) for m in RW.Resampling] == [("nearest", 0), ("bilinear", 1), ("cubic", 2), ("cubic_spline", 3),
+             ("lanczos", 4), ("average", 5), ("mode", 6), ("gauss", 7), ("max", 8), ("min", 9), ("med", 10), ("q1", 11), ("q3", 12),
+             ("sum", 13), ("rms", 14)], "resampling-enum-changed", {"fn": "rasterio.warp.Resampling"},
+             "the backend's Resampling enum is not the table the model was written against", sig="rs|enum", trivial=True)
+
+    def spellings(nm):
+        return {nm, nm.upper(), nm.title(), nm.capitalize(), "".join(c.upper() if i % 2 else c for i, c in enumerate(nm))}
+
+    bad_names = ["near", "nearest_", "cubicspline", "cubic-spline", "bi_linear", "0", "average2", "nearestnearest", "linear", "none",
+                 "min_", "q2", "RMS2", "Resampling.nearest", "value", "name"]
+    for nm in RS_NAMES:  # exhaustive over the enum, several spellings each
+        for sp in sorted(spellings(nm)):
+            R.corr(f"c10 s2rio {sp}", lambda: str(int(W.resampling_s2rio(sp))), sig="rs|s2rio|member")
+            R.corr(f"c10 isnn str {sp}", lambda: bool_s(W.is_resampling_nn(sp)), sig="rs|isnn|str")
+        R.corr(f"c10 isnn code {int(RW.Resampling[nm])}", lambda: bool_s(W.is_resampling_nn(RW.Resampling[nm])), sig="rs|isnn|enum")
+        R.corr(f"c10 isnn code {int(RW.Resampling[nm])}", lambda: bool_s(W.is_resampling_nn(int(RW.Resampling[nm]))), sig="rs|isnn|int")
+    for sp in bad_names:
+        R.corr(f"c10 s2rio {sp}", lambda: str(int(W.resampling_s2rio(sp))), sig="rs|s2rio|not-a-member")
+        R.corr(f"c10 isnn str {sp}", lambda: bool_s(W.is_resampling_nn(sp)), sig="rs|isnn|str")
+    for v in (-1, 15, 99):
+        R.corr(f"c10 isnn code {v}", lambda: bool_s(W.is_resampling_nn(v)), sig="rs|isnn|int")
+    for sp in ("mro", "__doc__", "__members__", "__name__", "__class__", "__module__"):
+        # attributes of the enum CLASS that are not members: the documented contract is ValueError (known finding until fixed)
+        try:
+            got_ = W.resampling_s2rio(sp)
+            ok_ = False
+        except ValueError:
+            got_, ok_ = "ValueError", True
+        except Exception as ex:  # pylint: disable=broad-except
+            got_, ok_ = type(ex).__name__, False
+        R.oracle(ok_, "s2rio-accepts-non-member-attribute", {"fn": "resampling_s2rio", "name": sp},
+                 f"resampling_s2rio({sp!r}) returned {str(got_)[:60]!r} instead of raising ValueError", sig="rs|s2rio|class-attribute")
+
+    # --- what rio_reproject hands to the backend: rasterio.warp.reproject replaced by a recorder (a public seam of the
+    #     backend; probed first - if the wrapper does not reach it on this tree the stream is skipped, not failed)
+    from odc.geo import gcp as GCPM
+
+    rec = []
+    orig_rw = RW.reproject
+
+    def recorder(source, destination, **kw):
+        rec.append((source, destination, kw))
+        return destination
+
+    def with_recorder(fn):
+        RW.reproject = recorder
+        try:
+            return fn()
+        finally:
+            RW.reproject = orig_rw
+
+    B0 = Affine(32.0, 0, 5e5, 0, -32.0, 6e6)
+    pix_ = np.asarray([(x, y) for x in np.linspace(0, 8, 4) for y in np.linspace(0, 6, 4)], dtype="float64")
+    wld_ = np.asarray([B0 * (float(x), float(y)) for x, y in pix_], dtype="float64")
+    gcp_src = GCPM.GCPGeoBox((6, 8), GCPM.GCPMapping(pix_, wld_, "EPSG:32633"))
+    gb_src, gb_dst = gb((6, 8), B0, "EPSG:32633"), gb((5, 7), B0 * Affine.translation(1, 1), "EPSG:32633")
+    with_recorder(lambda: rio_reproject(np.zeros((6, 8), "int16"), np.zeros((5, 7), "int16"), gb_src, gb_dst, "nearest"))
+    if not rec:
+        R.count("riocall|backend-seam-not-reached")
+        R.notes.append("rasterio.warp.reproject is not what rio_reproject calls on this tree: the backend-call stream was skipped")
+    DT = {"o": ["int16", "uint8", "int32", "uint16"], "i8": ["int8"], "b": ["bool"], "f": ["float32", "float64"]}
+    for i in range(R.pick(400, 4000) if rec else 0):
+        ts, td = rng.choice(["o", "o", "i8", "b", "f"]), rng.choice(["o", "o", "i8", "b", "f"])
+        dts, dtd = rng.choice(DT[ts]), rng.choice(DT[td])
+        gcp_ = rng.random() < 0.35
+        kind = rng.choice(["str", "str", "enum", "int"])
+        nm = rng.choice(RS_NAMES)
+        if kind == "str":
+            sp = rng.choice(sorted(spellings(nm)) + (bad_names[:6] if rng.random() < 0.2 else []))
+            rs_arg, rs_tok = sp, f"str {sp}"
+        elif kind == "enum":
+            rs_arg, rs_tok = RW.Resampling[nm], f"code {int(RW.Resampling[nm])}"
+        else:
+            rs_arg, rs_tok = int(RW.Resampling[nm]), f"code {int(RW.Resampling[nm])}"
+        hx, hy = rng.random() < 0.25, rng.random() < 0.25
+        kw = {**({"XSCALE": 3} if hx else {}), **({"YSCALE": 2} if hy else {})}
+        isf = td == "f"
+        pool = {"b": [None, 0, 1], "f": [None, NAN, 7, -5], "i8": [None, -128, 5], "o": [None, 0, 5, 200]}
+        sn, dn = rng.choice(pool[ts]), rng.choice(pool[td])
+        cv = lambda v, t_: None if v is None else (bool(v) if t_ == "b" else (float("nan") if (t_ == "f" and v == NAN) else v))  # noqa: E731
+
+        def fcall():
+            del rec[:]
+            src_a, dst_a = np.zeros((6, 8), dtype=dts), np.zeros((5, 7), dtype=dtd)
+            with_recorder(lambda: rio_reproject(src_a, dst_a, gcp_src if gcp_ else gb_src, gb_dst, rs_arg,
+                                                src_nodata=cv(sn, ts), dst_nodata=cv(dn, td), **kw))
+            assert len(rec) == 1
+            s_, d_, k_ = rec[0]
+            wk = lambda arr, orig: "same" if arr.dtype.name == orig else arr.dtype.name  # noqa: E731
+            nd = lambda v: "N" if v is None else (str(NAN) if (isinstance(v, float) and v != v) else str(int(v)))  # noqa: E731
+            inj = (k_.get("XSCALE"), k_.get("YSCALE")) == (1, 1) and not hx and not hy
+            assert inj or (k_.get("XSCALE") == (3 if hx else None) and k_.get("YSCALE") == (2 if hy else None))
+            return (f"rs={int(k_['resampling'])} tr={bool_s(k_.get('src_transform') is not None)} gcps={bool_s(k_.get('gcps') is not None)} "
+                    f"inj={bool_s(inj)} sn={nd(k_.get('src_nodata'))} dn={nd(k_.get('dst_nodata'))} src={wk(s_, dts)} dst={wk(d_, dtd)}")
+
+        tm = lambda t_: "o" if t_ == "f" else t_  # noqa: E731
+        R.corr(f"c10 riocall {tm(ts)} {tm(td)} {bool_s(isf)} {NAN} {bool_s(gcp_)} {rs_tok} {bool_s(hx)} {bool_s(hy)} "
+               f"{c03.opt_s(sn)} {c03.opt_s(dn)}", fcall, sig=f"riocall|{'gcp' if gcp_ else 'geobox'}|{kind}|{ts}>{td}")
+
     # ================================================================ GDAL oracle on real plans
     n_pairs = R.pick(420, 4200)
     stats = {"paste1": 0, "pasteK": 0, "nopaste": 0}
@@ -1211,6 +1318,15 @@ def replay(R: Run, rec) -> int:
         print(f"{int(neq.sum())} of {neq.size} pixels differ between sequential warps and sequential pastes "
               f"({int(other.sum())} of them are not valid-pixel-equals-dst-nodata collisions)")
         return 1 if (other.any() if key == "mosaic-warp-differs-from-paste" else neq.any()) else 0
+    if case.get("fn") == "resampling_s2rio":
+        from odc.geo.warp import resampling_s2rio
+
+        try:
+            print("resampling_s2rio ->", repr(resampling_s2rio(case["name"]))[:80])
+            return 1
+        except ValueError:
+            print("ValueError")
+            return 0
     if case.get("fn") in ("warp_affine", "rio_reproject", "rio_reproject-nd"):
         from odc.geo import warp as W
 
